@@ -112,13 +112,17 @@ func c15r2(p *Program, r *Report) {
 	}
 	info := fi.Pkg.TypesInfo
 	qryParam := paramObj(info, fi.Decl.Type, 1)
+	// the literal is built in executeQuery or in a helper it was moved to
 	var lit *ast.CompositeLit
-	ast.Inspect(fi.Decl.Body, func(x ast.Node) bool {
-		if cl, ok := x.(*ast.CompositeLit); ok && typeNameOf(info.TypeOf(cl)) == "nextIter" {
-			lit = cl
-		}
-		return true
-	})
+	host := fi
+	for _, u := range p.unitsOf(fi) {
+		ast.Inspect(u.Decl.Body, func(x ast.Node) bool {
+			if cl, ok := x.(*ast.CompositeLit); ok && typeNameOf(info.TypeOf(cl)) == "nextIter" && lit == nil {
+				lit, host = cl, u
+			}
+			return true
+		})
+	}
 	if lit == nil {
 		r.Unresolved("executeQuery builds no nextIter")
 		return
@@ -135,30 +139,41 @@ func c15r2(p *Program, r *Report) {
 		return
 	}
 	qobj := info.Uses[qid]
+	// isCallerQuery: e (in host) is the *Query executeQuery was given
+	isCallerQuery := func(e ast.Expr) bool {
+		rf, re := p.resolveValue(host, e, 0)
+		return rf == fi && isIdentOf(info, re, qryParam)
+	}
 	isCopy, pageFromResp, pageCopied := false, false, false
-	ast.Inspect(fi.Decl.Body, func(x ast.Node) bool {
+	ast.Inspect(host.Decl.Body, func(x ast.Node) bool {
 		as, ok := x.(*ast.AssignStmt)
 		if !ok || len(as.Lhs) != 1 || len(as.Rhs) != 1 {
 			return true
 		}
 		// *newQry = *qry
 		if st, ok := ast.Unparen(as.Lhs[0]).(*ast.StarExpr); ok && isIdentOf(info, st.X, qobj) {
-			if rs, ok := ast.Unparen(as.Rhs[0]).(*ast.StarExpr); ok && isIdentOf(info, rs.X, qryParam) {
+			if rs, ok := ast.Unparen(as.Rhs[0]).(*ast.StarExpr); ok && isCallerQuery(rs.X) {
 				isCopy = true
 			}
 		}
 		// newQry.pageState = copyBytes(x.meta.pagingState)
 		if sel, ok := ast.Unparen(as.Lhs[0]).(*ast.SelectorExpr); ok && isIdentOf(info, sel.X, qobj) && p.isField(info, sel, "Query", "pageState") {
-			rhs := exprStr(as.Rhs[0])
+			src := as.Rhs[0]
+			if c, ok := ast.Unparen(as.Rhs[0]).(*ast.CallExpr); ok && isCallTo(info, c, "copyBytes") && len(c.Args) == 1 {
+				pageCopied = true
+				src = c.Args[0]
+			}
+			_, re := p.resolveValue(host, src, 0)
+			rhs := exprStr(re)
 			if strings.Contains(rhs, ".meta.pagingState") && !strings.Contains(rhs, "info.") {
 				pageFromResp = true
-			}
-			if c, ok := ast.Unparen(as.Rhs[0]).(*ast.CallExpr); ok && isCallTo(info, c, "copyBytes") {
-				pageCopied = true
 			}
 		}
 		return true
 	})
+	if isCallerQuery(qid) {
+		isCopy = false
+	}
 	r.Check(qobj != qryParam && isCopy, lit, "(*Conn).executeQuery next-page query is a private copy made when the page arrives", "*newQry = *qry before scheduling",
 		"the follow-up page is scheduled with the caller's own *Query (or no copy is made now): if the caller re-binds, modifies or releases the query before the page is fetched, the next page is requested with other values or options")
 	r.Check(pageFromResp, lit, "(*Conn).executeQuery next-page query carries this response's paging state", "newQry.pageState = x.meta.pagingState", "the follow-up query does not carry the paging state of the response just received")
@@ -223,7 +238,7 @@ func c15r3(p *Program, r *Report) {
 				return true
 			}
 			last := c.Args[len(c.Args)-1]
-			if !p.isField(info, last, "nextIter", "qry") {
+			if _, re := p.resolveValue(f, last, 0); !p.isField(info, re, "nextIter", "qry") {
 				ok = false
 			}
 			return true
@@ -300,6 +315,22 @@ func c15r4(p *Program, r *Report) {
 				case *ast.BranchStmt:
 					if nx.Tok == token.CONTINUE {
 						reenter = true
+					}
+				}
+			}
+			// or: the switch is (up to plain copies of the new page into other variables) the last step of the body
+			// of an unconditional loop, whose next iteration runs the checks again
+			if i, list := p.stmtIndex(as); i >= 0 && !reenter {
+				if blk, isBlk := p.Parent(as).(*ast.BlockStmt); isBlk {
+					if loop, isFor := p.Parent(blk).(*ast.ForStmt); isFor && loop.Cond == nil && loop.Post == nil && loop.Body == blk {
+						plain := true
+						for _, rest := range list[i+1:] {
+							ra, isAs := rest.(*ast.AssignStmt)
+							if !isAs || len(callsIn(ra)) > 0 {
+								plain = false
+							}
+						}
+						reenter = plain
 					}
 				}
 			}
